@@ -548,13 +548,16 @@ bool exec_str_a(Ctx &c, const Op &op) {
         std::string n8 = take_units<char>(c, op.b, op.c);
         std::wstring nw = take_units<wchar_t>(c, op.b, op.c);
         if (op.fault & F_CORRUPT) { corrupt_units<char>(n8, op.fc); corrupt_units<wchar_t>(nw, op.fc); }
+        // self-referential form: the stream's get area is a (non-owning) view of the target's own text - `in >> s` with `in` reading s's bytes
+        const bool self = !wide && ((op.d >> 1) % 5) == 4 && dst->st == M_DEFINITE && !(op.fault & F_CORRUPT);
+        if (self) { n8 = dst->model; probe(c, PR_SELF_REFERENTIAL); }
         // the token is what std::basic_string extraction yields: leading whitespace skipped, up to next whitespace
         std::string tok8; std::wstring tokw;
         { std::istringstream is(n8); is >> tok8; std::wistringstream ws(nw); ws >> tokw; }
         std::string expect; bool wf;
         if (wide) { std::u32string t(tokw.begin(), tokw.end()); wf = u32_strict(t); if (wf) enc_utf8(t, expect); }
         else { wf = strict_utf8(tok8.data(), tok8.size()); expect = tok8; }
-        note_sig(c, op, std::string(wide ? "wistream" : "istream") + ",dst=" + cl(dst) + (wf ? "" : ",invalid"));
+        note_sig(c, op, std::string(wide ? "wistream" : "istream") + ",dst=" + cl(dst) + (wf ? "" : ",invalid") + (self ? ",self" : ""));
         c.budget_bytes = n8.size() * 8 + dst->model.size();
         as_target(dst); note_mutating(c, dst);
         std::istringstream is(n8); std::wistringstream ws(nw);
@@ -569,7 +572,9 @@ bool exec_str_a(Ctx &c, const Op &op) {
             k0 = simrt::heap_op_allocs(); simrt::heap_op_end();
             o2.fa = k0 + op.fa;
         }
-        ExcKind ex = run_sut(c, o2, [&] { if (wide) ws >> *dst->p(); else is >> *dst->p(); });
+        struct ViewBuf : std::streambuf { ViewBuf(const char *p, size_t n) { char *b = const_cast<char *>(p); setg(b, b, b + n); } };
+        ViewBuf vb(self ? dst->p()->c_str() : "", self ? dst->p()->size() : 0); std::istream vis(&vb);
+        ExcKind ex = run_sut(c, o2, [&] { if (self) vis >> *dst->p(); else if (wide) ws >> *dst->p(); else is >> *dst->p(); });
         c.op_allocs -= std::min(k0, c.op_allocs);        // (the enumeration counts string_theory's own allocations only)
         if (ex != EX_NONE && ex != EX_BAD_ALLOC && dst->model.size() >= 16) probe(c, PR_THROW_WITH_HEAP_TARGET);
         if (settle(c, o2, ex, wf ? 0 : bit(EX_UNICODE))) { if (wf) dst->model = expect; else dst->st = M_ADOPT; dst->moved_from = false; }
